@@ -59,7 +59,7 @@ PY_BUILTINS = {"len", "min", "max", "abs", "sum", "any", "all", "set", "dict", "
                "round", "divmod", "ord", "chr", "object", "bytes", "complex", "vars", "map", "filter"}
 SPEC_BUILTINS = {"old", "implies", "iff", "keys", "values_of", "isnan", "isinf", "isfinite", "card", "every",
                  "subset", "forall", "exists", "same", "typeis", "fresh_ref", "disjoint", "seq_eq", "union_all",
-                 "real", "rank", "ite", "inrange", "allocated", "unchanged", "floor"}
+                 "real", "rank", "ite", "inrange", "allocated", "unchanged", "floor", "now"}
 
 
 class ExprMixin:
@@ -105,7 +105,9 @@ class ExprMixin:
         for k, v in ha.items():
             if k not in b.heap and not all(z3.is_const(x) and str(x).startswith("H_") for x in v):
                 return False
-        if a.ghost != b.ghost:
+        ga = {k: v for k, v in a.ghost.items() if not k.startswith("$clock")}
+        gb = {k: v for k, v in b.ghost.items() if not k.startswith("$clock")}
+        if ga != gb:
             return False
         return True
 
@@ -125,9 +127,7 @@ class ExprMixin:
 
     def spec_eval(self, src: str, st: State, extra: dict | None = None) -> V:
         v, ax = self.spec_eval_full(src, st, extra)
-        if ax:
-            raise EngineError(f"spec expression {src!r} needs definitional axioms where a plain value is expected")
-        return v
+        return v     # (facts about heap reads / definitions are dropped: the term itself stays valid)
 
     def spec_bool(self, src, st, extra=None):
         """Formula to ASSUME: definitions and the clause."""
@@ -220,6 +220,10 @@ class ExprMixin:
                 imap = extract.import_map(module)
                 if name in imap and imap[name][0] == "global":
                     return self.module_global(module, name, imap[name][3], None)
+                if name in imap and imap[name][0] == "module":
+                    return ModRef(imap[name][1])
+                if name in imap and imap[name][0] == "object" and (imap[name][1], imap[name][2]) != (module, name):
+                    return self.resolve_object(imap[name][1], imap[name][2])
                 raise EngineError(f"cannot resolve {module}.{name}")
             if isinstance(node, ast.ClassDef):
                 return ClassRef(name)
@@ -279,6 +283,9 @@ class ExprMixin:
                     else:
                         yield st, self.module_global(ent[1], ent[2], ent[3], st)
                     return
+            if attr in self.ct.classes and not extract.is_repo_module(dotted):
+                yield st, ClassRef(attr)      # external class declared with klass(...)
+                return
             yield st, BuiltinRef(f"{dotted}.{attr}")
             return
         if isinstance(base, ClassRef):
@@ -345,6 +352,12 @@ class ExprMixin:
                 yield st2, v
                 return
             m = self.ct.method(t.cls, attr)
+            if m is None:
+                dc_, con_ = self.ct.contract_for(t.cls, attr)
+                if con_ is not None:
+                    # method of a class without source in the repository (library class) with an assumed contract
+                    yield st, FuncRef(self.ct.classes[dc_].module, f"{dc_}.{attr}", bound_self=base, cls=t.cls)
+                    return
             if m is not None:
                 dcls, fdef = m
                 ci = self.ct.classes[dcls]
